@@ -41,6 +41,10 @@ type selCase struct {
 	// whatever its EXAMPLE cell says (those rows are then disabled in the
 	// product profile on purpose, although enabled rows refer to them)
 	HRST bool `json:"hrst_flag,omitempty"`
+	// NameVersion: the zip is named for this release (a three-digit minor
+	// version, as current SDK releases have) and no -sdk flag is given: the
+	// generated code declares the version the name gives
+	NameVersion string `json:"zip_named_for_version,omitempty"`
 	// Group names the kind of rows a "kinds" selection disables.
 	Group string `json:"rows_disabled_by_kind,omitempty"`
 }
@@ -411,6 +415,8 @@ func checkSelection(c selCase, labels map[string]int) (string, bool) {
 		input = filepath.Join(tmp, "FitSDKRelease_"+c.Version+".00.zip")
 		if c.ZipOverride {
 			input = filepath.Join(tmp, "FitSDKRelease_1.0.zip")
+		} else if c.NameVersion != "" {
+			input = filepath.Join(tmp, "FitSDKRelease_"+c.NameVersion+".00.zip")
 		}
 		if err := wb.WriteSDKZip(input, xlsx); err != nil {
 			return "HARNESS: " + err.Error(), false
@@ -524,9 +530,13 @@ func checkSelection(c selCase, labels map[string]int) (string, bool) {
 	if err != nil {
 		return "generated code is not parsable: " + err.Error(), false
 	}
-	vp := strings.Split(c.Version, ".")
-	if major != vp[0] || minor != strconv.Itoa(atoi(vp[1])) || !strings.HasPrefix(sdkc, c.Version) {
-		return fmt.Sprintf("requested SDK %s, generated code declares major=%s minor=%s, comment %q", c.Version, major, minor, sdkc), false
+	declared := c.Version
+	if c.ViaZip && !c.ZipOverride && c.NameVersion != "" {
+		declared = c.NameVersion
+	}
+	vp := strings.Split(declared, ".")
+	if major != vp[0] || minor != strconv.Itoa(atoi(vp[1])) || !strings.HasPrefix(sdkc, declared) {
+		return fmt.Sprintf("requested SDK %s, generated code declares major=%s minor=%s, comment %q", declared, major, minor, sdkc), false
 	}
 	// per message: struct fields and table entries = enabled rows
 	nums := wb.MesgNums(b.types)
@@ -662,6 +672,10 @@ func drawSelection(d gen.D, b *book) selCase {
 			}
 		}
 	}
+	if c.ViaZip && !c.ZipOverride && d.Int(0, 3, "namever") == 0 {
+		vp := strings.Split(b.ver, ".")
+		c.NameVersion = vp[0] + "." + []string{"1" + vp[1], "115", "171", "100"}[d.Int(0, 3, "nameversel")]
+	}
 	c.Reenabled = b.closeSelection(disabled)
 	if d.Int(0, 3, "hrst") == 0 {
 		// with -hrst the heart_rate_source_type rows may be disabled although
@@ -707,12 +721,18 @@ func TestC19(t *testing.T) {
 		// stock workbooks, both input forms, in parallel
 		var wg sync.WaitGroup
 		for _, v := range versions {
-			for form := 0; form < 3; form++ {
+			for form := 0; form < 4; form++ {
 				wg.Add(1)
 				go func(v string, form int) {
 					defer wg.Done()
 					zip := form > 0
 					c := selCase{Version: v, ViaZip: zip, ZipOverride: form == 2}
+					if form == 3 {
+						// the zip is named for a release with a three-digit
+						// minor version
+						vp := strings.Split(v, ".")
+						c.NameVersion = vp[0] + ".1" + vp[1]
+					}
 					labels := map[string]int{}
 					if msg, ok := checkSelection(c, labels); !ok {
 						rec.Fail("stock", "", fmt.Sprintf("SDK %s (zip=%v): %s", v, zip, msg), c)
